@@ -380,6 +380,30 @@ def main(argv):
             notes.append(f"coq_term failed on case {idx}: {type(ex).__name__}: {ex}")
         if term is not None:
             terms.append((idx, term))
+    # 4b. history independence: a sample of the cases is run again in a FRESH interpreter process, in reverse order; every
+    # observation is a function of the case alone, so the two runs must agree exactly (caches keyed too coarsely, state left
+    # behind by earlier calls on other objects, buffers shared between results show up here whatever the property)
+    if results and not err and os.environ.get("VERIF_HISTORY", "1") == "1":
+        step = max(1, len(cases) // 24)
+        idxs = list(range(len(known_examples) + len(corpus), len(cases), step))[:24]
+        sub = [{k: v for k, v in cases[i].items() if not k.startswith("_")} for i in reversed(idxs)]
+        r3, err3 = run_impl(prop, sub, rundir, tag="fresh")
+        if err3:
+            notes.append(f"fresh-process re-run failed: {err3[:200]}")
+        else:
+            notes.append(f"history independence: {len(idxs)} cases re-run in a fresh process in reverse order and compared exactly "
+                         "with their observations in the long-running process")
+            for i, res_f in zip(reversed(idxs), r3):
+                canon = lambda o: re.sub(r"0x[0-9a-fA-F]+", "0x", json.dumps(o, sort_keys=True))   # object addresses in reprs
+                if canon(res_f) != canon(results[i]):
+                    pure = {k: v for k, v in cases[i].items() if not k.startswith("_")}
+                    a_, b_ = canon(results[i]), canon(res_f)
+                    pos_ = next((k_ for k_ in range(min(len(a_), len(b_))) if a_[k_] != b_[k_]), 0)
+                    violations.append((f"{prop}/history-dependence",
+                                       f"case #{i} gives different observations as the {i + 1}-th case of a long-running process and in a "
+                                       f"fresh process: ...{a_[max(0, pos_ - 60):pos_ + 60]}... vs ...{b_[max(0, pos_ - 60):pos_ + 60]}...",
+                                       pure, {"in_sequence": results[i], "fresh": res_f}))
+                    break
     if ok and terms:
         extra_q = [(rundir, "Gen")] if ties else []
         imports = mod.COQ_IMPORTS + "".join(f"\nFrom Gen Require {g}." for g in sorted(mod.GEN_AVAILABLE))
